@@ -377,10 +377,28 @@ pub fn build_with_builder(pos: &Pos) -> Option<Result<Board, String>> {
         return None;
     }
     let mut bld = Board::builder();
+    // every other position is assembled the way a caller that recovers from mistakes would: a
+    // placement on an occupied square (refused), and a piece put down on a free square and
+    // taken off again
+    let clumsy = digest(&pos.key()) & 1 == 1;
+    let mut first: Option<u8> = None;
     for s in 0..64u8 {
         if let Some((c, p)) = pos.sq[s as usize] {
             if bld.place(sq(s), color_to_bb(c), piece_to_bb(p)).is_err() {
                 return Some(Err("builder refuses to place on an empty square".into()));
+            }
+            if clumsy {
+                if let Some(f) = first {
+                    if bld.place(sq(f), color_to_bb(c), piece_to_bb(p)).is_ok() {
+                        return Some(Err("builder accepts a placement on an occupied square".into()));
+                    }
+                } else {
+                    first = Some(s);
+                    if let Some(free) = (0..64u8).find(|q| pos.sq[*q as usize].is_none()) {
+                        let _ = bld.place(sq(free), color_to_bb(c), bb::Piece::Knight);
+                        bld.remove(sq(free));
+                    }
+                }
             }
         }
     }
